@@ -372,7 +372,44 @@ func ruleValidateVisitsAll(c *Ctx) {
 			}
 		}
 	}
-	c.check(len(bad) == 0, "validate-visits-all", funcName(fn), c.P.pos(fn.Pos()), fmt.Sprintf("%d returns inside loops, none reports success before the loop is done", n), strings.Join(uniq(bad), " || "), n+1)
+	// an outermost loop is left only through its own condition (all elements visited) or by returning
+	for f := range staticScope(fn, "config", 2) {
+		if f != fn && !isHelper(f) {
+			continue
+		}
+		done := map[*ssa.BasicBlock]bool{}
+		for _, b := range f.Blocks {
+			if done[b] {
+				continue
+			}
+			scc := cycleOf(b)
+			if scc == nil {
+				continue
+			}
+			var header *ssa.BasicBlock
+			for x := range scc {
+				done[x] = true
+				for _, p := range x.Preds {
+					if !scc[p] {
+						header = x
+					}
+				}
+			}
+			for x := range scc {
+				for _, y := range x.Succs {
+					if scc[y] || x == header {
+						continue
+					}
+					if _, isRet := y.Instrs[len(y.Instrs)-1].(*ssa.Return); isRet {
+						continue
+					}
+					n++
+					bad = append(bad, fmt.Sprintf("%s: %s leaves a loop from inside its body without returning (a break out of the outer loop): the remaining elements are never checked and a dangling reference in one of them is accepted", c.P.pos(x.Instrs[len(x.Instrs)-1].Pos()), funcName(f)))
+				}
+			}
+		}
+	}
+	c.check(len(bad) == 0, "validate-visits-all", funcName(fn), c.P.pos(fn.Pos()), fmt.Sprintf("%d returns / exits inside loops, none ends the checks before the loop is done", n), strings.Join(uniq(bad), " || "), n+1)
 }
 
 // inLoopBody: b can reach a loop header that can reach b, and b is not the
@@ -444,6 +481,19 @@ func ruleLRUAddFresh(c *Ctx) {
 				}
 				return rets > 0
 			case *ssa.UnOp:
+				// a captured variable: the assignments that reach this read
+				if fv, isFV := x.X.(*ssa.FreeVar); isFV && x.Op == token.MUL {
+					defs, complete := reachingStores(fv, x)
+					if !complete || len(defs) == 0 {
+						return false
+					}
+					for _, st := range defs {
+						if !ok(st.Val, d+1) {
+							return false
+						}
+					}
+					return true
+				}
 				// a result cell written on every path (functions with a defer spill their results)
 				if al, isAl := x.X.(*ssa.Alloc); isAl && x.Op == token.MUL {
 					stores := 0
@@ -584,4 +634,268 @@ func rulePickerOnly(c *Ctx) {
 		return
 	}
 	c.check(len(bad) == 0, "picker-only", "upstream", "upstream/upstream.go", fmt.Sprintf("%d proxy-configuration fields / pool calls: no fixed target, the picker only calls Next", n), strings.Join(uniq(bad), " || "), n)
+}
+
+// ruleAllMethodsRouted: the proxying server routes every request method to the
+// middleware chain (elton resolves the route before any middleware runs: a
+// method without a route is answered by pike itself and never forwarded).
+func ruleAllMethodsRouted(c *Ctx) {
+	fn := c.P.Method("server", "server", "Start")
+	if fn == nil {
+		c.undecided("all-methods-routed", "server.Start", "-", "not found")
+		return
+	}
+	need := []string{"GET", "HEAD", "POST", "PUT", "PATCH", "DELETE", "OPTIONS", "TRACE"}
+	have := map[string]bool{}
+	all := false
+	n := 0
+	var constStrings func(v ssa.Value, d int) []string
+	constStrings = func(v ssa.Value, d int) []string {
+		if d > 5 {
+			return nil
+		}
+		switch x := v.(type) {
+		case *ssa.Const:
+			if s, ok := constTerm(x.Value, x.Type()).StrVal(); ok {
+				return []string{s}
+			}
+		case *ssa.UnOp:
+			if x.Op == token.MUL {
+				return constStrings(x.X, d+1)
+			}
+		case *ssa.IndexAddr:
+			return constStrings(x.X, d+1)
+		case *ssa.Index:
+			return constStrings(x.X, d+1)
+		case *ssa.Slice:
+			return constStrings(x.X, d+1)
+		case *ssa.Global:
+			if ca := c.P.constAggregate(x.Object()); ca != nil {
+				out := []string{}
+				for _, e := range ca.elems {
+					out = append(out, constStrings(e, d+1)...)
+				}
+				return out
+			}
+		case *ssa.Alloc:
+			// a local array literal: the values stored into its cells
+			out := []string{}
+			for _, r := range *x.Referrers() {
+				if ia, ok := r.(*ssa.IndexAddr); ok {
+					for _, rr := range *ia.Referrers() {
+						if st, ok := rr.(*ssa.Store); ok && st.Addr == ssa.Value(ia) {
+							out = append(out, constStrings(st.Val, d+1)...)
+						}
+					}
+				}
+			}
+			return out
+		case *ssa.Extract:
+			if nx, ok := x.Tuple.(*ssa.Next); ok {
+				if r, ok := nx.Iter.(*ssa.Range); ok {
+					return constStrings(r.X, d+1)
+				}
+			}
+		case *ssa.Phi:
+			out := []string{}
+			for _, e := range x.Edges {
+				out = append(out, constStrings(e, d+1)...)
+			}
+			return out
+		}
+		return nil
+	}
+	for f := range staticScope(fn, "server", 3) {
+		for _, b := range f.Blocks {
+			for _, in := range b.Instrs {
+				ci, ok := in.(ssa.CallInstruction)
+				if !ok {
+					continue
+				}
+				sc := ci.Common().StaticCallee()
+				if sc == nil || sc.Signature.Recv() == nil || !strings.HasSuffix(sc.Signature.Recv().Type().String(), "elton.Elton") {
+					continue
+				}
+				args := ci.Common().Args
+				switch sc.Name() {
+				case "ALL":
+					n++
+					if len(args) > 1 {
+						if p := constStrings(args[1], 0); len(p) == 1 && (p[0] == "/*" || p[0] == "*") {
+							all = true
+						}
+					}
+				case "Handle":
+					n++
+					if len(args) > 2 {
+						if p := constStrings(args[2], 0); len(p) == 1 && (p[0] == "/*" || p[0] == "*") {
+							for _, m := range constStrings(args[1], 0) {
+								have[strings.ToUpper(m)] = true
+							}
+						}
+					}
+				case "GET", "POST", "PUT", "PATCH", "DELETE", "HEAD", "OPTIONS", "TRACE":
+					n++
+					if len(args) > 1 {
+						if p := constStrings(args[1], 0); len(p) == 1 && (p[0] == "/*" || p[0] == "*") {
+							have[sc.Name()] = true
+						}
+					}
+				}
+			}
+		}
+	}
+	if n == 0 {
+		c.undecided("all-methods-routed", funcName(fn), c.P.pos(fn.Pos()), "no route registration found")
+		return
+	}
+	missing := []string{}
+	if !all {
+		for _, m := range need {
+			if !have[m] {
+				missing = append(missing, m)
+			}
+		}
+	}
+	c.check(len(missing) == 0, "all-methods-routed", funcName(fn), c.P.pos(fn.Pos()), "every request method has the catch-all route", "no catch-all route for "+strings.Join(missing, ", ")+": such a request is answered by the router (405) and never reaches the cache / proxy middleware, so it is not forwarded", n)
+}
+
+// ruleMatchFieldsVerbatim: what a location matches on (its hosts and prefixes)
+// and its name are written by the converter only, from the configuration: no
+// later step (Set, a reload) rewrites them, so the specificity class a location
+// is sorted by is the one of its configured constraints.
+func ruleMatchFieldsVerbatim(c *Ctx) {
+	conv := c.P.Func("location", "convertConfigs")
+	if conv == nil {
+		c.undecided("match-fields-verbatim", "location.convertConfigs", "-", "not found")
+		return
+	}
+	allowed := staticScope(conv, "location", 3)
+	n := 0
+	bad := []string{}
+	for _, f := range c.P.allFuncs {
+		if !isPikeFunc(f) {
+			continue
+		}
+		for _, b := range f.Blocks {
+			for _, in := range b.Instrs {
+				st, ok := in.(*ssa.Store)
+				if !ok {
+					continue
+				}
+				fa, ok := st.Addr.(*ssa.FieldAddr)
+				if !ok {
+					continue
+				}
+				fv := faField(fa)
+				if fv.Pkg() == nil || fv.Pkg().Path() != pkgPath("location") {
+					continue
+				}
+				nt, ok := derefType(fa.X.Type()).(*types.Named)
+				if !ok || nt.Obj().Name() != "Location" {
+					continue
+				}
+				if fv.Name() != "Hosts" && fv.Name() != "Prefixes" && fv.Name() != "Name" {
+					continue
+				}
+				n++
+				if !allowed[f] {
+					bad = append(bad, fmt.Sprintf("%s: %s rewrites Location.%s after the converter filled it: the location no longer matches (and is no longer ranked by) its configured constraints", c.P.pos(st.Pos()), funcName(f), fv.Name()))
+				}
+			}
+		}
+	}
+	if n == 0 {
+		c.undecided("match-fields-verbatim", funcName(conv), c.P.pos(conv.Pos()), "no assignment of Hosts / Prefixes / Name found")
+		return
+	}
+	c.check(len(bad) == 0, "match-fields-verbatim", funcName(conv), c.P.pos(conv.Pos()), fmt.Sprintf("%d assignments of Location.Hosts / Prefixes / Name, all in the converter", n), strings.Join(uniq(bad), " || "), n)
+}
+
+// ruleBadgerCommits: the badger back end's Set and Delete go through a
+// committing operation (DB.Update, Txn.Commit or WriteBatch.Flush) on every
+// path that reports success: a buffered write that is never flushed reports
+// success and changes nothing (a purge would leave the persisted record).
+func ruleBadgerCommits(c *Ctx) {
+	n := 0
+	bad := []string{}
+	for _, mname := range []string{"Set", "Delete"} {
+		fn := c.P.Method("store", "badgerStore", mname)
+		if fn == nil {
+			c.undecided("store-commits", "badgerStore."+mname, "-", "not found")
+			return
+		}
+		c.P.Simulate(fn, SimConfig{}, func(pr *PathResult) {
+			if pr.Exit != "return" || len(pr.Results) == 0 {
+				return
+			}
+			n++
+			var commit *Event
+			for _, e := range pr.Events {
+				if e.Kind != "call" || e.Callee == nil || !strings.Contains(e.Callee.String(), "dgraph-io/badger") {
+					continue
+				}
+				switch e.Callee.Name() {
+				case "Update", "Commit", "Flush":
+					if !e.Deferred && !e.InDefer {
+						commit = e
+					}
+				}
+			}
+			res := pr.Results[len(pr.Results)-1]
+			if commit == nil {
+				if k, isNil := pr.Facts.Decide(eqTerm(res, nilTerm(res.Type))); res.IsNil() || !(k && !isNil) {
+					bad = append(bad, fmt.Sprintf("%s may report success without a committing badger operation (DB.Update / Txn.Commit / WriteBatch.Flush): the change is buffered and dropped on path [%s]", funcName(fn), condString(pr.Conds)))
+				}
+				return
+			}
+			if !res.contains(func(x *Term) bool { return x.Key() == commit.Result.Key() }) {
+				if k, isNil := pr.Facts.Decide(eqTerm(commit.Result, nilTerm(commit.Result.Type))); !(k && isNil) {
+					bad = append(bad, fmt.Sprintf("%s does not return the error of its committing operation on path [%s]", funcName(fn), condString(pr.Conds)))
+				}
+			}
+		})
+	}
+	if n == 0 {
+		c.undecided("store-commits", "badgerStore", "-", "no returning path found")
+		return
+	}
+	c.check(len(bad) == 0, "store-commits", "store.badgerStore", "store/badger.go", fmt.Sprintf("%d paths of Set / Delete: each goes through a committing operation whose error it returns", n), strings.Join(uniq(bad), " || "), n)
+}
+
+// reachingStores: the stores into cell (within the function of the load) that can be the last one before the
+// load; complete is false when the load can be reached without any of them.
+func reachingStores(cell ssa.Value, load ssa.Instruction) ([]*ssa.Store, bool) {
+	var out []*ssa.Store
+	complete := true
+	seen := map[*ssa.BasicBlock]bool{}
+	var scan func(b *ssa.BasicBlock, upto int)
+	scan = func(b *ssa.BasicBlock, upto int) {
+		for i := upto - 1; i >= 0; i-- {
+			if st, ok := b.Instrs[i].(*ssa.Store); ok && st.Addr == cell {
+				out = append(out, st)
+				return
+			}
+		}
+		if len(b.Preds) == 0 {
+			complete = false
+			return
+		}
+		for _, p := range b.Preds {
+			if seen[p] {
+				continue
+			}
+			seen[p] = true
+			scan(p, len(p.Instrs))
+		}
+	}
+	b := load.Block()
+	idx := len(b.Instrs)
+	for i, in := range b.Instrs {
+		if in == load {
+			idx = i
+		}
+	}
+	scan(b, idx)
+	return out, complete
 }
